@@ -610,3 +610,134 @@ Proof.
   intros Hn Hr Hs. pose proof (line_decorated sty sk [PNamed nm s]) as H. cbn [line_str flat_map piece_str piece_shown] in H.
   rewrite !app_nil_r in H. apply H; (constructor; [|constructor]); [|exact Hs]. split; [exact Hn|]. exists p. exact Hr.
 Qed.
+
+(* ---------- the renderer's own pieces ---------- *)
+(* a text without '<' and backslash is its own literal (line numbers, counts) *)
+Lemma double_bsl_id : forall s, no_bsl s -> double_bsl s = s.
+Proof.
+  induction s as [|c|c d r IHr IHd] using list_ind2; intros H; [reflexivity|reflexivity|].
+  inversion H as [|? ? Hc Hdr]; subst. rewrite (double_bsl_head c _ Hc), (IHd Hdr). reflexivity.
+Qed.
+Lemma cut_lt_id tag s : no_lt s -> cut_lt tag s = s.
+Proof.
+  induction 1 as [|c s Hc Hs IH]; [reflexivity|]. unfold cut_lt in *. cbn [flat_map]. rewrite IH.
+  destruct (N.eqb_spec c LT); [contradiction|reflexivity].
+Qed.
+Lemma literal_safe t tag : safe t -> literal t tag = t.
+Proof.
+  intros Ht. unfold literal. rewrite (no_bsl_ends t (safe_no_bsl t Ht)), (double_bsl_id t (safe_no_bsl t Ht)).
+  apply cut_lt_id, safe_no_lt, Ht.
+Qed.
+Lemma shown_safe t : safe t -> shown t = t.
+Proof. intros Ht. unfold shown. now rewrite (no_bsl_ends t (safe_no_bsl t Ht)). Qed.
+
+(* the highlighter's theme styles are inline styles: they resolve in every style table *)
+Lemma theme_tag_name h : tag_name (theme h).
+Proof. destruct h; (split; [reflexivity|repeat constructor]). Qed.
+Lemma theme_resolvable sty h : resolvable sty (theme h).
+Proof.
+  unfold resolvable, resolve. set (n := py_lower (theme h)). destruct (aget str_eqb n sty) as [st|]; [eexists; reflexivity|].
+  subst n. destruct h; vm_compute; eexists; reflexivity.
+Qed.
+Theorem styled_plain sty sk h text : colorize sty false sk (styled h text) = Ok (sk, shown text).
+Proof.
+  destruct (theme_resolvable sty h) as [p Hp]. exact (literal_plain sty sk (theme h) p text (theme_tag_name h) Hp).
+Qed.
+(* a highlighted source line: the chunks, each with a blank after a trailing backslash *)
+Definition chunk_piece (c : chunk) : piece := PLit (theme (fst c)) (snd c).
+Lemma render_chunks_line cs : render_chunks cs = line_str (map chunk_piece cs).
+Proof. unfold render_chunks, line_str. rewrite flat_map_concat_map, flat_map_concat_map, map_map. reflexivity. Qed.
+Lemma chunks_ok sty cs : pieces_ok sty (map chunk_piece cs).
+Proof. apply Forall_map, Forall_forall. intros c _. split; [apply theme_tag_name|apply theme_resolvable]. Qed.
+Theorem render_chunks_plain sty sk cs :
+  colorize sty false sk (render_chunks cs) = Ok (sk, flat_map (fun c => shown (snd c)) cs).
+Proof.
+  rewrite render_chunks_line, (line_plain sty sk _ (chunks_ok sty cs)). f_equal. f_equal.
+  rewrite !flat_map_concat_map, map_map. reflexivity.
+Qed.
+Theorem render_chunks_decorated sty sk cs : Forall (fun c => no_esc (snd c)) cs ->
+  exists out, colorize sty true sk (render_chunks cs) = Ok (sk, out) /\ strip_sgr out = flat_map (fun c => shown (snd c)) cs.
+Proof.
+  intros Hne. rewrite render_chunks_line.
+  destruct (line_decorated sty sk _ (chunks_ok sty cs)) as (out & H1 & H2).
+  { apply Forall_map. eapply Forall_impl; [|exact Hne]. intros c Hc. exact Hc. }
+  exists out. split; [exact H1|]. rewrite H2, !flat_map_concat_map, map_map. reflexivity.
+Qed.
+
+(* ---------- E. examples ---------- *)
+Module Examples.
+(* the style table of a formatter made with clikit's <b> (bold) on top of pastel's own four styles *)
+Definition cs_b : cstyle :=
+  {| c_tag := Some st_b; c_fg := None; c_bg := None; c_bold := true; c_italic := false; c_dark := false;
+     c_underlined := false; c_blinking := false; c_inverse := false; c_hidden := false |}.
+Definition demo_sty : styles := match new_formatter (FAnsi false) [cs_b] with Ok f => f_styles f | Err _ => [] end.
+
+Definition t_bold : str := [60;98;62;98;111;108;100;60;47;98;62]%N.    (* <b>bold</b> *)
+Definition t_esc_lt : str := [97;92;60;98]%N.                          (* a\<b *)
+Definition t_bsl_end : str := [120;92]%N.                              (* x\ *)
+Definition t_close : str := [60;47;62]%N.                              (* </> *)
+Definition t_fg : str := [60;102;103;61;114;101;100;62]%N.             (* <fg=red> *)
+Definition t_nl : str := [108;49;10;108;50;60]%N.                      (* l1 NL l2< *)
+Definition nasty : list str := [t_bold; t_esc_lt; t_bsl_end; t_close; t_fg; t_nl].
+
+(* the hypotheses of B hold for the tags the renderer uses *)
+Example names_ok : Forall tag_name [th_comment; th_marker; st_green; st_cyan; st_error; st_b].
+Proof. repeat constructor. Qed.
+Example resolve_comment : exists p, resolve demo_sty (py_lower th_comment) = Ok (Some p). Proof. eexists. vm_compute. reflexivity. Qed.
+Example resolve_error : exists p, resolve demo_sty (py_lower st_error) = Ok (Some p). Proof. eexists. vm_compute. reflexivity. Qed.
+Example resolve_b : exists p, resolve demo_sty (py_lower st_b) = Ok (Some p). Proof. eexists. vm_compute. reflexivity. Qed.
+
+(* B on the nasty texts: <fg=default;options=dark,italic>...</>, <error>...</error>, <b>...</b> *)
+Example shown_nasty : map shown nasty = [t_bold; t_esc_lt; t_bsl_end ++ [32%N]; t_close; t_fg; t_nl].
+Proof. vm_compute. reflexivity. Qed.
+Example B_tagged : map (fun s => colorize demo_sty false [] (tagged th_comment (literal s th_comment))) nasty
+                   = map (fun s => Ok ([], shown s)) nasty.
+Proof. vm_compute. reflexivity. Qed.
+Example B_error : map (fun s => colorize demo_sty false [] (open_tag st_error ++ literal s st_error ++ close_tag st_error)) nasty
+                  = map (fun s => Ok ([], shown s)) nasty.
+Proof. vm_compute. reflexivity. Qed.
+Example B_b : map (fun s => colorize demo_sty false [] (open_tag st_b ++ literal s st_b ++ close_tag st_b)) nasty
+              = map (fun s => Ok ([], shown s)) nasty.
+Proof. vm_compute. reflexivity. Qed.
+(* what the markup of one of them looks like:  <b><</><b>b>bold<</><b>/b></b>  *)
+Example literal_bold : open_tag st_b ++ literal t_bold st_b ++ close_tag st_b
+  = [60;98;62; 60;60;47;62;60;98;62; 98;62;98;111;108;100; 60;60;47;62;60;98;62; 47;98;62; 60;47;98;62]%N.
+Proof. vm_compute. reflexivity. Qed.
+(* without _literal the text would be read as markup: the tags vanish *)
+Example unprotected : colorize demo_sty false [] (open_tag st_b ++ t_bold ++ close_tag st_b) = Ok ([], [98;111;108;100]%N).
+Proof. vm_compute. reflexivity. Qed.
+
+(* C and D on a line:  "  12: " <fg=magenta;options=bold>..</> " " <error>..</error> <fg=default>..</> <b>..</b> ... *)
+Definition demo_line : list piece :=
+  [PRaw [32;32;49;50;58;32]%N; PLit th_keyword t_bold; PRaw [32%N]; PNamed st_error t_esc_lt; PLit th_default t_bsl_end;
+   PNamed st_b t_close; PLit th_comment t_fg; PRaw [58%N]; PNamed st_b t_nl; PRaw [32;32]%N].
+Example demo_line_ok : pieces_ok demo_sty demo_line.
+Proof.
+  unfold demo_line. repeat (apply Forall_cons; [|]); try apply Forall_nil;
+    try (split; [split; [reflexivity|repeat constructor]|eexists; vm_compute; reflexivity]);
+    repeat constructor; discriminate.
+Qed.
+Example demo_line_noesc : pieces_noesc demo_line.
+Proof. unfold demo_line. repeat constructor; discriminate. Qed.
+Example C_line : colorize demo_sty false [] (line_str demo_line) = Ok ([], flat_map piece_shown demo_line).
+Proof. vm_compute. reflexivity. Qed.
+Example C_line_text : flat_map piece_shown demo_line
+  = ([32;32;49;50;58;32] ++ t_bold ++ [32] ++ t_esc_lt ++ t_bsl_end ++ [32] ++ t_close ++ t_fg ++ [58] ++ t_nl ++ [32;32])%N.
+Proof. vm_compute. reflexivity. Qed.
+Example D_line : match colorize demo_sty true [] (line_str demo_line) with
+                 | Ok (sk, out) => sk = [] /\ strip_sgr out = flat_map piece_shown demo_line /\ out <> flat_map piece_shown demo_line
+                 | Err _ => False
+                 end.
+Proof. vm_compute. repeat split. discriminate. Qed.
+(* the same through the theorems *)
+Example C_line_thm : colorize demo_sty false [] (line_str demo_line) = Ok ([], flat_map piece_shown demo_line).
+Proof. apply line_plain, demo_line_ok. Qed.
+End Examples.
+
+Print Assumptions unescape_double_bsl.
+Print Assumptions literal_plain.
+Print Assumptions literal_named_plain.
+Print Assumptions line_plain.
+Print Assumptions colorize_lockstep_gen.
+Print Assumptions line_decorated.
+Print Assumptions render_chunks_decorated.
